@@ -2,7 +2,7 @@
 From Coq Require Import NArith Arith Bool List Lia.
 From RS.Gen Require Import Prelude GenConsts.
 From RS.Model Require Import Field Sched Codec Layout.
-From RS.Proofs Require Import Param Linear.
+From RS.Proofs Require Import Param Linear LayoutFacts.
 Import ListNotations.
 Local Open Scope N_scope.
 
@@ -39,6 +39,13 @@ Theorem C04_pack_unpack :
                      Nat.eqb (length (syms_of_bytes (bytes_n sb 3))) (Nat.div2 sb)) evens = true.
 Proof. vm_compute. reflexivity. Qed.
 Print Assumptions C04_pack_unpack.
+
+(* ... and for EVERY even size: unpacking the packed symbols returns the shard, the number of
+   symbols is half the size, and every symbol is 16-bit *)
+Theorem C04_pack_unpack_all : forall (bs : list N) q, length bs = (q + q)%nat -> Forall (fun x => x < 256) bs ->
+  bytes_of_syms (syms_of_bytes bs) = bs /\ length (syms_of_bytes bs) = q /\ Forall (fun x => x < 65536) (syms_of_bytes bs).
+Proof. exact pack_unpack. Qed.
+Print Assumptions C04_pack_unpack_all.
 
 (* documented placement: in a full block symbol r is (byte r, byte r+32); in a final block
    of t bytes symbol r is (byte r, byte r + t/2) *)
